@@ -88,6 +88,11 @@ func legalValue(g *RNG, f optField) string {
 			return fmt.Sprint(g.Range(0, 5000))
 		}
 	}
+	if g.Chance(0.4) {
+		// words that mean something somewhere in the framework: status labels, sources, booleans and numbers as text
+		return fmt.Sprintf("%q", pick(g, []string{"reserved", "NA", "NE", "pass", "info", "notice", "warn", "error", "fatal", "Reserved", "ERROR", " warn ",
+			"CABF_BR", "RFC5280", "true", "false", "0", "-1", "", "default"}))
+	}
 	return fmt.Sprintf("%q", "v"+fmt.Sprint(g.Intn(1000)))
 }
 
@@ -152,7 +157,12 @@ func legalSection(g *RNG, name string, fields []optField) string {
 	fmt.Fprintf(&sb, "[%s]\n", name)
 	for _, f := range fields {
 		if g.Chance(0.65) {
-			fmt.Fprintf(&sb, "%s = %s\n", f.Name, legalValue(g, f))
+			key := f.Name
+			if !isProbeName(name) && g.Chance(0.15) {
+				// the option's key in one of the other spellings the loader matches to an untagged field
+				key = pick(g, []string{strings.ToLower(key), strings.ToUpper(key), strings.ToLower(key[:1]) + key[1:]})
+			}
+			fmt.Fprintf(&sb, "%s = %s\n", key, legalValue(g, f))
 		}
 	}
 	return sb.String()
